@@ -459,11 +459,12 @@ class Draws:
     of its domain and the remaining elements are recorded as unexplored siblings (systematic DFS over the draw tree:
     every legal answer of every draw gets its own execution, no execution is wasted or aborted)."""
 
-    def __init__(self, answers):
+    def __init__(self, answers, auto="first"):
         self.answers = list(answers)
         self.i = 0
         self.log = []  # (kind, answer)
         self.siblings = []  # complete prefixes still to run
+        self.auto = auto  # in-place pairs only: "last" answers unscripted draws with the last element of the domain
 
     def _next(self, kind, dom):
         if not dom:
@@ -473,9 +474,9 @@ class Draws:
             if a not in dom:
                 raise HarnessError(f"scripted answer {a} not in the draw's domain {dom} ({kind})")
         else:
-            a = dom[0]
+            a = dom[0] if self.auto == "first" else dom[-1]
             prefix = [x for _, x in self.log]
-            self.siblings += [prefix + [b] for b in dom[1:]]
+            self.siblings += [prefix + [b] for b in dom if b != a]
         self.i += 1
         self.log.append((kind, a))
         return a
@@ -632,7 +633,7 @@ def pair_selected(spec, m1, m2):
 
 
 def _exec_op(c, op, seed_off):
-    d = Draws(op["draws"])
+    d = Draws(op["draws"], auto=op.get("auto", "first"))
     _seed(SEED + seed_off)
     try:
         with scripted(d):
@@ -686,6 +687,23 @@ def pair_once(st, op1, op2, ctx, rp, with_clone):
     return "done:" + jhash([e.a1, e.shapes1, e.applied])
 
 
+def pair_key(base, root_cls, is_network, m1, m2):
+    """key of a verdict that only the in-place order produces: root kind + direction of the pair + kind of problem.
+    (one stale-reference defect shows up under every root class and every nested method; those details stay in the text)"""
+    c1, c2 = component(m1), component(m2)
+    rel = "same-component" if c1 == c2 else ("parent-then-nested" if c1 == c2[:len(c1)] else "nested-then-parent")
+    parts = base.split("/")
+    if parts and parts[0] == root_cls:
+        parts = parts[1:]
+    if parts and parts[0] == _gen(m2):
+        parts = parts[1:]
+    if parts[:2] == ["rebuild-from-init_dict", "load_state_dict-strict"]:
+        parts = ["rebuild-from-init_dict"] + parts[3:]
+    parts = [x for x in parts if x not in ("Conv3d", "Conv2d-tuple-kernels")]
+    kind = "EvolvableNetwork" if is_network else root_cls
+    return "/".join([kind, rel] + parts + ["in-place-pair"])
+
+
 def judge_pair(st, op1, op2, ctx, rp):
     real = ctx.p
     s1 = Partial()
@@ -716,10 +734,10 @@ def judge_pair(st, op1, op2, ctx, rp):
         real.extra["in_place_pairs:control_runs"] += 1
         kc = {v["key"] for v in s2.violations}
         for v in s1.violations:
-            key = v["key"] if v["key"] in kc else v["key"] + "/in-place-pair"
+            key = v["key"] if v["key"] in kc else pair_key(v["key"], type(st).__name__, isinstance(st, EvolvableNetwork), op1["m"], op2["m"])
             real.viol(key, f"[in place, no clone in between: {op1['m']}({op1['kw']}) draws={op1['draws']} THEN {op2['m']}] " + v["what"], rp,
                       observed=v.get("observed"), expected=v.get("expected"))
-        keys = sorted((k if k in kc else k + "/in-place-pair") for k in keys)
+        keys = sorted({(k if k in kc else pair_key(k, type(st).__name__, isinstance(st, EvolvableNetwork), op1["m"], op2["m"])) for k in keys})
     real.dg("pair", op1["m"], op1["draws"], op2["m"], op2["draws"], status, keys)
 
 
@@ -733,6 +751,17 @@ def run_pairs(st, ctx):
             op1 = {"m": m1, "kw": {}, "draws": []}
             op2 = {"m": m2, "kw": {}, "draws": []}
             judge_pair(st, op1, op2, ctx, ctx.replay_pair(path, op1, op2))
+            c1, c2 = component(m1), component(m2)
+            if len(c2) < len(c1) and c2 == c1[:len(c2)]:
+                # nested mutation, then the PARENT's mutation with the largest amounts (typically refused by a bound:
+                # the parent is re-created although nothing may change)
+                first = list(op2["draws"])
+                op1 = {"m": m1, "kw": {}, "draws": []}
+                op2 = {"m": m2, "kw": {}, "draws": [], "auto": "last"}
+                rp = ctx.replay_pair(path, op1, op2)
+                judge_pair(st, op1, op2, ctx, rp)
+                if op2["draws"] == first:
+                    ctx.p.extra["in_place_pairs:last_answer_variant_equal_to_first"] += 1
 
 
 class Edge:
@@ -1527,9 +1556,8 @@ def _space_of(spec):
 
 def _pair_depth(tier, spec):
     """BFS depth up to which a state is also a source of in-place pairs (None: every expanded state)"""
-    plain = spec in MODULE_SPECS and not spec.startswith("multiinput")
     if tier == "quick":
-        return 2 if plain else 1
+        return 0 if (spec in NETWORK_SPECS and _space_of(spec) in ("dict", "tuple")) else 1
     return None if spec in MODULE_SPECS else 2
 
 
@@ -1601,10 +1629,11 @@ def bounds(tier):
         "in_place_pairs": {
             "what": "from a source state: clone ONCE, apply m1 and then m2 on the same object (no clone in between); the second step is judged by the "
                     "same oracle from the architecture/weights observed after the first; a verdict is re-run with a clone in between (control) and "
-                    "carries the key suffix /in-place-pair only when the control does not reproduce it",
+                    "is re-keyed <root kind>/<parent-then-nested|nested-then-parent|same-component>/<problem>/in-place-pair only when the control does not reproduce it",
             "pairs": "module specs: every ordered pair (m1, m2) of advertised methods whose components are equal or nested (plain modules: all pairs); "
                      "network specs: ordered pairs where one method's component strictly contains the other's (root vs encoder/head, encoder vs its feature nets), both orders",
-            "representative": "each method is called with all arguments None and every draw answered with the first element of its domain (lowest layer index, smallest amount / kernel)",
+            "representative": "each method is called with all arguments None and every draw answered with the first element of its domain (lowest layer index, smallest amount / kernel); "
+                              "when m2's component strictly contains m1's, m2 is additionally run with every draw answered by the LAST element (largest amount: the refused-by-a-bound path of the parent)",
             "source_states": {s["spec"]: ("every expanded state" if s["pair_depth"] is None else f"states at BFS depth <= {s['pair_depth']}") for s in pl},
         },
     }
